@@ -42,6 +42,10 @@ def _child(job: Job, mode: str, suppress, conn):
         lim = int(float(os.environ.get("VERIF_CHILD_MEM_GB", "6")) * (1 << 30))
         resource.setrlimit(resource.RLIMIT_AS, (lim, lim))
         sys.setrecursionlimit(10000)
+        # floats are modelled as mathematical reals (finite only): NaN/inf are outside every claim (DESIGN 2.5)
+        os.environ["CROSSHAIR_ONLY_FINITE_FLOATS"] = "1"
+        import warnings
+        warnings.filterwarnings("ignore", category=FutureWarning)
         from vf.xh import loader
         loader.install(rewrite=True, assoc_dict_modules=job.assoc)
         import z3
@@ -78,6 +82,14 @@ def _child(job: Job, mode: str, suppress, conn):
             return msg
 
         core.make_counterexample_message = mk
+        if job.params.get("_reals_exact", True):
+            # CrossHair caps every result at UNKNOWN once a float is modelled as a real, because real arithmetic is
+            # not float arithmetic. The encoded code only COMPARES and MOVES numbers (no float arithmetic), and Python
+            # compares finite ints/floats exactly, so the real model is exact there (stated in the evidence).
+            import crosshair.statespace as _ss
+            _ss.StateSpace.cap_result_at_unknown = lambda self: None
+            import crosshair.libimpl.builtinslib as _bl
+            _bl._PYTYPE_TO_WRAPPER_TYPE[float] = ((_bl.RealBasedSymbolicFloat, 1.0),)  # never the IEEE model
 
         from vf import h
         h.MODE = mode
